@@ -60,17 +60,31 @@ func c11SysN() int {
 	return c11SysAEAD + c11SysAad + c11SysNonce + c11SysMis + c11SysOpen + len(c11Kernels)*2 + 4
 }
 
+// sparse sweep of long messages: 2^k + delta for k = 12..22 (thorough: ..26), the deltas
+// chosen around the 16-, 48- and 64-byte steps of the bulk loops, Seal and Open, every
+// argument ending at / starting after an inaccessible page
+var c11BigDelta = []int{0, 1, 15, 16, 17, 33, 47, 48, 63, 64}
+
+func c11BigKs(tier string) int {
+	if tier == "thorough" {
+		return 15
+	}
+	return 11
+}
+
+func c11BigN(tier string) int { return c11BigKs(tier) * len(c11BigDelta) * 2 * 2 }
+
 func (c11) Plan(tier string) core.Plan {
 	if tier == "thorough" {
-		return core.Plan{Systematic: c11SysN() + len(giantVariants), Seeded: 2000000}
+		return core.Plan{Systematic: c11SysN() + c11BigN(tier) + len(giantVariants), Seeded: 2000000}
 	}
-	return core.Plan{Systematic: c11SysN(), Seeded: 150000}
+	return core.Plan{Systematic: c11SysN() + c11BigN(tier), Seeded: 150000}
 }
 
 func (c11) Meta() core.Meta {
 	return core.Meta{
 		Level: "exploration",
-		Rule: "systematic (enumerated completely every run): Seal and Open at every plaintext length 0..1100 with all arguments (nonce, aad, plaintext/ciphertext, dst with exact capacity) simultaneously flush against a PROT_NONE page after, then before; every aad length 0..300; every nonce length 1..300; every in-package amd64 kernel with every pointer argument guarded on both sides; misuse: Encrypt/Decrypt with src or dst of 0..15 bytes (tail-guarded, interior cap=len, interior cap>=16) on both paths, Open of 0..15-byte ciphertexts for tag sizes 12..16; thorough tier only: Seal and Open of messages with len(ciphertext) = 2^32+21, 2^32+3, 2^32 and of additional data of 2^32+7 bytes, the message ending at a guard page (fresh destination) and starting right after one (in place). " +
+		Rule: "systematic (enumerated completely every run): Seal and Open at every plaintext length 0..1100 with all arguments (nonce, aad, plaintext/ciphertext, dst with exact capacity) simultaneously flush against a PROT_NONE page after, then before; every aad length 0..300; every nonce length 1..300; a sparse sweep of long messages 2^k + {0,1,15,16,17,33,47,48,63,64} bytes for k = 12..22 (thorough tier: ..26); every in-package amd64 kernel with every pointer argument guarded on both sides; misuse: Encrypt/Decrypt with src or dst of 0..15 bytes (tail-guarded, interior cap=len, interior cap>=16) on both paths, Open of 0..15-byte ciphertexts for tag sizes 12..16; thorough tier only: Seal and Open of messages with len(ciphertext) = 2^32+21, 2^32+3, 2^32 and of additional data of 2^32+7 bytes, the message ending at a guard page (fresh destination) and starting right after one (in place). " +
 			"seeded: random (op, tag size, nonce size, lengths, per-argument side and alignment, dst prefix). non-trivial = at least one argument was guard-placed; distinct = distinct (path, op, length classes, per-argument sides)",
 		Components: map[string]string{"sm4 Block/AEAD methods": "real", "amd64 assembly kernels (via verif-tagged wrappers)": "real", "portable Go path": "real", "allocator": "stub (guard-page arena: mmap + mprotect)", "arm64 assembly": "not run",
 			"oracle": "hardware page protection + canary bytes; runtime.Error.Addr() attributes the fault to an arena guard page"},
@@ -88,9 +102,16 @@ func allSides(side string) map[string]string {
 
 func (c11) Generate(idx int, r *core.Rand, tier string) core.Script {
 	i := idx
-	if tier == "thorough" && idx >= c11SysN() && idx < c11SysN()+len(giantVariants) {
+	if nb := c11BigN(tier); idx >= c11SysN() && idx < c11SysN()+nb {
+		j := idx - c11SysN()
+		s := &c11Script{Asm: true, Op: []string{"Seal", "Open"}[j%2], AEAD: aeadSpec{Key: "000102030405060708090a0b0c0d0e0f", NonceSize: 12, TagSize: 16}, Seed: uint64(idx),
+			Sides: allSides([]string{"tail", "head"}[(j/2)%2]), AadLen: (idx * 7) % 40}
+		j /= 4
+		s.PtLen = 1<<uint(12+j/len(c11BigDelta)) + c11BigDelta[j%len(c11BigDelta)]
+		return s
+	} else if tier == "thorough" && idx >= c11SysN()+nb && idx < c11SysN()+nb+len(giantVariants) {
 		// thorough tier only: arguments of 2^32 bytes and more (see giant.go)
-		return &c11Script{Asm: true, Op: "Giant", Giant: giantVariants[idx-c11SysN()], AEAD: aeadSpec{NonceSize: 12, TagSize: 16}}
+		return &c11Script{Asm: true, Op: "Giant", Giant: giantVariants[idx-c11SysN()-nb], AEAD: aeadSpec{NonceSize: 12, TagSize: 16}}
 	}
 	sides := []string{"tail", "head"}
 	base := func(op string, side string) *c11Script {
@@ -209,6 +230,10 @@ func (c11) Execute(sc core.Script, keep bool) *core.Result {
 	gcmCanon()
 	ar := c11Arena
 	ar.Reset()
+	if s.PtLen > 1<<16 {
+		defer ar.Release() // long messages: give the mappings back instead of pooling them
+		res.Probes["len>=64KiB"]++
+	}
 	defer func() {
 		res.EventHash = log.Hash()
 		res.Steps = log.Steps()
